@@ -5,6 +5,7 @@ package main
 
 import (
 	"fmt"
+	"go/types"
 	"os"
 	"path/filepath"
 	"strconv"
@@ -42,34 +43,34 @@ type CallAssert struct {
 }
 
 type Contract struct {
-	Key        string
-	File       string
-	Line       int
-	Extern     bool // trusted: never verified, only used at call sites
-	Pure       bool
-	Inline     bool
-	StoreAfter [][2]string // (field, callee pattern): every store to the field is dominated by a call of the callee
-	Guarded    [][2]string // (field, mutex field): the field is accessed only while the mutex is held
-	AssumePre  []string    // callee key patterns whose preconditions are assumed at call sites (trusted)
-	MapRangeCollects bool // syntactic: a loop that ranges over a map calls nothing (it only collects keys/values)
-	NoMapRange bool        // syntactic obligation: the function does not iterate over a map
-	Getter     bool        // result is a function of receiver and arguments only; no effects (trusted)
-	Preserves  []string    // type names whose objects keep their content (used with an unspecified/heap footprint)
-	Safe       bool
-	SafeOnly   []string // restrict safety obligations to descriptions mentioning one of these
-	Requires   []*Clause
-	Assumes    []*Clause // representation invariants assumed at entry (not checked at call sites; trusted)
-	Ensures    []*Clause
-	Lemmas     map[*Clause]bool // ensures that are checked but not exported to callers (may mention locals)
-	Modifies   []SExpr          // nil = unspecified (anything)
-	HasMod     bool
-	Loops      map[int]*LoopSpec
-	CallAsrt   []*CallAssert
-	Lets       map[string]SExpr
-	Props      []string // property ids this contract serves
-	Used       bool
-	NoBody     bool // contract on interface method
-	ParamName  []string
+	Key              string
+	File             string
+	Line             int
+	Extern           bool // trusted: never verified, only used at call sites
+	Pure             bool
+	Inline           bool
+	StoreAfter       [][2]string // (field, callee pattern): every store to the field is dominated by a call of the callee
+	Guarded          [][2]string // (field, mutex field): the field is accessed only while the mutex is held
+	AssumePre        []string    // callee key patterns whose preconditions are assumed at call sites (trusted)
+	MapRangeCollects bool        // syntactic: a loop that ranges over a map calls nothing (it only collects keys/values)
+	NoMapRange       bool        // syntactic obligation: the function does not iterate over a map
+	Getter           bool        // result is a function of receiver and arguments only; no effects (trusted)
+	Preserves        []string    // type names whose objects keep their content (used with an unspecified/heap footprint)
+	Safe             bool
+	SafeOnly         []string // restrict safety obligations to descriptions mentioning one of these
+	Requires         []*Clause
+	Assumes          []*Clause // representation invariants assumed at entry (not checked at call sites; trusted)
+	Ensures          []*Clause
+	Lemmas           map[*Clause]bool // ensures that are checked but not exported to callers (may mention locals)
+	Modifies         []SExpr          // nil = unspecified (anything)
+	HasMod           bool
+	Loops            map[int]*LoopSpec
+	CallAsrt         []*CallAssert
+	Lets             map[string]SExpr
+	Props            []string // property ids this contract serves
+	Used             bool
+	NoBody           bool // contract on interface method
+	ParamName        []string
 }
 
 type SpecFunc struct {
@@ -88,8 +89,17 @@ type SParam struct{ Name, Type string }
 // package initializer, assumed at the entry of every function of the package
 // (a syntactic scan shows that nothing else stores to the variables).
 type GlobalInv struct {
-	Pkg    string
+	Pkg    string // package name
+	Dir    string // directory of the contract file relative to the repository (distinguishes packages of the same name)
 	Clause *Clause
+}
+
+// inPkg: the invariant belongs to this package (same name and same directory).
+func (gi *GlobalInv) inPkg(pk *types.Package) bool {
+	if pk == nil || pk.Name() != gi.Pkg {
+		return false
+	}
+	return gi.Dir == "" || gi.Dir == "." || strings.HasSuffix(pk.Path(), gi.Dir)
 }
 
 // ---------------------------------------------------------------------------
@@ -523,7 +533,7 @@ func (p *Prog) parseContractFile(file string) error {
 			if err != nil {
 				return fail(l.n, "%v", err)
 			}
-			p.globalInvs = append(p.globalInvs, &GlobalInv{Pkg: pkgName, Clause: &Clause{Label: label, Text: body, Expr: e, Line: l.n, File: short}})
+			p.globalInvs = append(p.globalInvs, &GlobalInv{Pkg: pkgName, Dir: filepath.Dir(short), Clause: &Clause{Label: label, Text: body, Expr: e, Line: l.n, File: short}})
 			i = j
 		case "func", "extern":
 			ext := fields[0] == "extern"
